@@ -105,7 +105,11 @@ SLOT_SHAPES = {"paren": lambda x, n: "(" * n + x + ")" * n,
                "call": lambda x, n: "f(" * n + x + ")" * n,
                "sum": lambda x, n: ("(" + x + " + ") * n + x + ")" * n,
                "chain": lambda x, n: x + (" + " + x) * n,
-               "list": lambda x, n: "[" + ", ".join([x] * (n + 1)) + "]"}
+               "list": lambda x, n: "[" + ", ".join([x] * (n + 1)) + "]",
+               "neg": lambda x, n: "-(" * n + x + ")" * n,
+               "pow": lambda x, n: (x + " ** ") * n + x,
+               "callneg": lambda x, n: "f(-" * n + x + ")" * n,
+               "mixed": lambda x, n: ("(" + x + " * f(") * n + x + "))" * n}
 SLOT_SIZES = [1, 2, 4, 8, 16]
 SLOT_CAP = 600000     # a slot family needs a few hundred calls at n = 1; 4 * c(1) * 16^2 stays far below this
 
